@@ -672,6 +672,14 @@ def pred_band(case):
         per_hi = _brms(itf, cfg, r, p, wlhigh=1 / b)     # fhigh defaults to r.max()
         b_up = _brms(itf, cfg, r, p, flow=b)
         up_c = _brms(itf, cfg, r, p, fhigh=c)            # flow defaults to 0
+        # degenerate bands: inverted, entirely above every sample radius, edges beyond the data on either side, edges handed over as
+        # NumPy scalars / 0-d arrays
+        inv = _brms(itf, cfg, r, p, flow=c, fhigh=a) if a < c else 0.0
+        beyond = _brms(itf, cfg, r, p, flow=2 * rmax + 1, fhigh=3 * rmax + 2)
+        neg_lo = _brms(itf, cfg, r, p, flow=-1.0 - rmax, fhigh=c)
+        big_hi = _brms(itf, cfg, r, p, flow=b, fhigh=float('inf'))
+        neg_full = _brms(itf, cfg, r, p, flow=-3.5, fhigh=7 * rmax + 3)
+        np_edges = _brms(itf, cfg, r, p, flow=np.float64(a), fhigh=np.array(c))
         if on is not None:
             a2 = 0.0
             c2 = 2 * rmax + 1
@@ -684,7 +692,7 @@ def pred_band(case):
     if not (np.array_equal(r, r0) and np.array_equal(p, p0)):
         out.append(('brms_pure', 'bandlimited_rms modified the r / psd arrays of its caller in place'))
         r, p = r0, p0
-    vals = [full, full_default, ac, ab, bc, wide, pos, mix_hi, per_lo, lo_c, per_hi, b_up, up_c]
+    vals = [full, full_default, ac, ab, bc, wide, pos, mix_hi, per_lo, lo_c, per_hi, b_up, up_c, inv, beyond, neg_lo, big_hi, neg_full]
     if not all(np.isfinite(v) for v in vals):
         return out + [('brms', f'non-finite band-limited RMS: {vals}')]
     dfy, dfx = 1 / (m * dx), 1 / (n * dx)
@@ -715,6 +723,14 @@ def pred_band(case):
     if mix_lo is not None and abs(mix_lo - ac) > tol:
         out.append(('band_mixed', f'bandlimited_rms(wlhigh=1/a, fhigh=c)^2 = {mix_lo!r} but the band [a, c] = [{a:.6g}, {c:.6g}] '
                                   f'given as two frequencies has {ac!r}'))
+    if abs(inv) > tol or abs(beyond) > tol:
+        out.append(('band_degenerate', f'a band that contains no sample must give 0: inverted band [{c:.6g}, {a:.6g}] gives {inv!r}, the band '
+                                       f'[{2 * rmax + 1:.6g}, {3 * rmax + 2:.6g}] above r.max() = {rmax:.6g} gives {beyond!r}'))
+    if abs(neg_lo - lo_c) > tol or abs(big_hi - b_up) > tol or abs(neg_full - full) > tol:
+        out.append(('band_degenerate', f'edges beyond the data: flow=-1-r.max() gives {neg_lo!r} (flow=0: {lo_c!r}); fhigh=inf gives {big_hi!r} '
+                                       f'(default fhigh: {b_up!r}); [-3.5, 7 r.max()+3] gives {neg_full!r} (full band {full!r})'))
+    if not np.isfinite(np_edges) or abs(np_edges - ac) > tol:
+        out.append(('band_degenerate', f'band edges given as np.float64 / 0-d array: {np_edges!r}, as Python floats {ac!r}'))
     if on is not None and abs(on_ac - (on_ab + on_bc - on_bb)) > tol:
         out.append(('band_incl_excl', f'edge b = {on!r} on a sample radius: brms^2[a,c] = {on_ac!r}, brms^2[a,b] + '
                                       f'brms^2[b,c] - brms^2[b,b] = {on_ab + on_bc - on_bb!r} (bands are closed at both ends)'))
@@ -1583,6 +1599,9 @@ def _correspondence(ctx):
         bands = [(0.0, float(r.max())), (a, c), (b, c)]
         if on is not None:
             bands += [(on, on), (0.0, on)]
+        # the hypotheses of band_inverted_zero / band_beyond_samples_zero / band_defaults_full, on the real code and the model
+        rmx = float(r.max())
+        bands += [(c, a), (2 * rmx + 1, 3 * rmx + 2), (-1.0 - rmx, 7 * rmx + 3)]
         for (lo, hi) in bands:
             try:
                 got = _brms(itf, case['config'], r, p, flow=lo, fhigh=hi)
